@@ -292,12 +292,12 @@ class CloseWrapper(RawIOBase):
 
     @_raise_if_file_closed
     def readable(self) -> bool:
-        return self.readable()
+        return self._reader.readable()
 
     @_raise_if_file_closed
     def writable(self) -> bool:
-        return self.writable()
+        return self._reader.writable()
 
     @_raise_if_file_closed
     def seekable(self) -> bool:
-        return self.seekable()
+        return self._reader.seekable()
